@@ -68,6 +68,12 @@ pub struct Scn {
     pub first: Option<Dgp>,
     /// octet the devices pre-fill every transmit buffer with
     pub fill: u8,
+    /// part "hwchg": Interface::set_hardware_addr(changed_hw(kind)) on the sender after this many
+    /// exchange rounds, while fragments are still pending
+    pub hw_to: Option<HwKind>,
+    pub chg_after: usize,
+    /// sender's device takes one frame per poll (back-pressure keeps fragments pending)
+    pub one_per_poll: bool,
 }
 
 /// parameters of one UDP datagram
@@ -183,6 +189,9 @@ impl Scn {
             order: vec![],
             first: None,
             fill: FILL,
+            hw_to: None,
+            chg_after: 0,
+            one_per_poll: false,
         }
     }
     /// parameters of the datagram described by the top-level fields (with payload length `len`)
@@ -211,7 +220,8 @@ impl Scn {
     pub fn to_json(&self) -> Value {
         json!({"part": self.part, "s_hw": self.s_hw.name(), "r_hw": self.r_hw.name(), "src": self.src.name(),
             "dst": self.dst.name(), "pan": self.pan, "mtu": self.mtu, "sport": self.sport, "dport": self.dport,
-            "hl": self.hl, "lens": self.lens, "order": self.order, "first": self.first.as_ref().map(|f| f.to_json()), "fill": self.fill})
+            "hl": self.hl, "lens": self.lens, "order": self.order, "first": self.first.as_ref().map(|f| f.to_json()), "fill": self.fill,
+            "hw_to": self.hw_to.map(|h| h.name()), "chg_after": self.chg_after, "one_per_poll": self.one_per_poll})
     }
     pub fn from_json(v: &Value) -> Scn {
         let us = |k: &str| v[k].as_u64().unwrap_or(0);
@@ -231,6 +241,9 @@ impl Scn {
             order: list("order"),
             first: Dgp::from_json(&v["first"]),
             fill: v["fill"].as_u64().unwrap_or(FILL as u64) as u8,
+            hw_to: v["hw_to"].as_str().map(HwKind::from_name),
+            chg_after: v["chg_after"].as_u64().unwrap_or(0) as usize,
+            one_per_poll: v["one_per_poll"].as_bool().unwrap_or(false),
         }
     }
     pub fn proto(&self) -> Proto {
@@ -340,7 +353,7 @@ impl Scn {
 /// the failure to its baseline value and derives the final, minimal cause label with `label_of`.
 pub fn cause(scn: &Scn, _nfrag1: usize) -> String {
     format!(
-        "{}|first={},src={},dst={},hw={}-{},ports={:#06x}x{:#06x},hl={},pan={},mtu={},fill={}",
+        "{}|first={},src={},dst={},hw={}-{},ports={:#06x}x{:#06x},hl={},pan={},mtu={},fill={},chg={:?}@{}/{}",
         scn.part,
         scn.first.as_ref().map(|f| format!("{}>{}:{:#06x}x{:#06x}:{}:{}", f.src.name(), f.dst.name(), f.sport, f.dport, f.hl, size_class(scn.s_hw, scn.r_hw, f))).unwrap_or_default(),
         scn.src.name(),
@@ -352,7 +365,10 @@ pub fn cause(scn: &Scn, _nfrag1: usize) -> String {
         scn.hl,
         scn.pan,
         scn.mtu,
-        scn.fill
+        scn.fill,
+        scn.hw_to.map(|h| h.name()),
+        scn.chg_after,
+        scn.one_per_poll
     )
 }
 
@@ -386,7 +402,7 @@ pub fn label_of(scn: &Scn, interrupted: bool) -> String {
             "fragmentation-interrupted-by-next-datagram".into()
         };
     }
-    if (scn.s_hw, scn.r_hw) != (HwKind::Ext, HwKind::Ext) {
+    if (scn.s_hw, scn.r_hw) != (HwKind::Ext, HwKind::Ext) && scn.part != "hwchg" {
         p.push(format!("hw={}-{}", scn.s_hw.name(), scn.r_hw.name()));
     }
     if !scn.pan {
@@ -417,6 +433,12 @@ pub fn label_of(scn: &Scn, interrupted: bool) -> String {
     }
     if scn.part == "b2b" {
         p.push("two-datagrams-back-to-back".into());
+    }
+    if let (true, Some(to)) = (scn.part == "hwchg", scn.hw_to) {
+        p.push(format!("sender-hw-address-changed-while-fragments-pending({}->{})", scn.s_hw.name(), to.name()));
+        if scn.one_per_poll {
+            p.push("device-takes-one-frame-per-poll".into());
+        }
     }
     if scn.part == "seq" {
         if let (Some(f), Some(&l)) = (&scn.first, scn.lens.first()) {
